@@ -21,7 +21,7 @@ CREATED = datetime(2019, 1, 1, tzinfo=timezone.utc)
 NEVER = 987654321
 _G = {}
 
-EVENT_WRITES = ("ins1", "bulk2", "bulk49", "bulk50", "bulk51", "mix", "ups", "ups2", "rep", "repl", "del", "bulk49B2")
+EVENT_WRITES = ("ins1", "bulk2", "bulk49", "bulk50", "bulk51", "mix", "ups", "ups2", "rep", "repl", "del", "bulk49B2", "bulk130")
 SINGLE_EVENT_WRITES = ("ins1", "rep", "repl", "del", "insB2", "ups")
 BUCKET_OPS = ("mkB2", "updB2", "delB2", "updB1")
 READS = ("get", "get_id", "count")
